@@ -314,11 +314,8 @@ func (w *world) genClients() {
 	s := w.s
 	const st = "scen"
 	nc := 1 + s.T.Choose(st, 2)
-	if w.lmtp {
-		// go-smtp runs LMTPData in a goroutine of its own that cannot be
-		// given a stable identity; keep LMTP runs to one client
-		nc = 1
-	}
+	// (go-smtp runs LMTPData in a goroutine of its own; the overlay names it
+	// after the connection, so LMTP runs can have two clients as well)
 	for i := 0; i < nc; i++ {
 		c := &client{name: fmt.Sprintf("cl%d", i+1), ip: fmt.Sprintf("198.51.100.%d:4%d000", 1+i, i)}
 		ntx := 1 + s.T.Choose(st, 3)
